@@ -78,7 +78,7 @@ class FnIndex:
 
     def __init__(self, path):
         self.src = open(path).read()
-        self.entries = []  # (start_line, end_line, module, name, container)
+        self.entries = []  # (start_line, end_line, module, name, container type, container header)
         masked = ex.mask_source(self.src)
         for m in re.finditer(r"(?m)^pub mod ([a-z_0-9]+) \{$", masked):
             o = masked.find("{", m.start())
@@ -88,14 +88,53 @@ class FnIndex:
             c = ex.match_close(masked, o)
             o += 1
             body = self.src[o:c]
+            mbody = masked[o:c]
             base_line = self.src.count("\n", 0, o) + 1
-            _, blocks, fns = ex.scan_module(body)
-            # also nested/spec fns: take all fn matches
-            for f in fns:
-                sl = base_line + body.count("\n", 0, f.item_start)
-                el = base_line + body.count("\n", 0, f.body_end)
-                cont = ex.impl_type_name(f.container) if f.container else None
-                self.entries.append((sl, el, mod, f.name, cont, f.container))
+            blocks = []
+            for bm in re.finditer(r"(?m)^[ \t]*(?:pub(?:\([a-z]+\))?[ \t]+)?(?:unsafe[ \t]+)?(impl|trait)\b", mbody):
+                kw = bm.start(1)
+                if mbody.count("{", 0, kw) != mbody.count("}", 0, kw):
+                    continue
+                bo = mbody.find("{", kw)
+                blocks.append((bo, ex.match_close(mbody, bo), " ".join(body[bm.end(1):bo].split())))
+            for fm in re.finditer(r"\bfn[ \t]+([A-Za-z_][A-Za-z0-9_]*)", mbody):
+                kw = fm.start()
+                # body brace: first `{` at bracket depth 0 that is not inside a contract clause, i.e. either no clause
+                # keyword has been seen yet, or the brace is the first thing on its line (how contracts are spliced)
+                k = fm.end()
+                depth = 0
+                seen_clause = False
+                end = None
+                while k < len(mbody):
+                    ch = mbody[k]
+                    if ch in "([":
+                        depth += 1
+                    elif ch in ")]":
+                        depth -= 1
+                    elif depth == 0 and ch == ";" and not seen_clause:
+                        end = k
+                        break
+                    elif depth == 0 and ch == "{":
+                        ls = mbody.rfind("\n", 0, k) + 1
+                        if not seen_clause or mbody[ls:k].strip() == "":
+                            end = ex.match_close(mbody, k)
+                            break
+                        k = ex.match_close(mbody, k)
+                    elif depth == 0 and mbody.startswith(("requires", "ensures", "decreases", "recommends"), k) and not (mbody[k - 1].isalnum() or mbody[k - 1] == "_"):
+                        seen_clause = True
+                    k += 1
+                if end is None:
+                    continue
+                start = ex.item_start_before(mbody, body, kw)
+                cont = None
+                header = None
+                for bo, bc, hdr in blocks:
+                    if bo < kw < bc:
+                        header = hdr
+                        cont = ex.impl_type_name(hdr)
+                sl = base_line + body.count("\n", 0, start)
+                el = base_line + body.count("\n", 0, end)
+                self.entries.append((sl, el, mod, fm.group(1), cont, header))
 
     def at_line(self, line):
         best = None
@@ -361,6 +400,7 @@ def main():
                 ent["rlimit"] += fb.get("rlimit", 0)
                 ent["verus_names"].append(fb["function"])
         run_fail = []
+        other_prop_fail = {}
         for d in diags:
             if d.get("level") != "error":
                 continue
@@ -368,21 +408,44 @@ def main():
             if msg.startswith("aborting due to"):
                 continue
             cls = classify(msg + " " + " ".join(c.get("message", "") for c in d.get("children", [])))
-            fq = None
+            cands = []
             for ln in diag_lines(d):
                 e = idx.at_line(ln)
                 if e is not None:
                     cand = "%s::%s::%s" % (e[2], e[4], e[3]) if e[4] else "%s::%s" % (e[2], e[3])
                     alt = "%s::%s" % (e[2], e[3])
                     if cand in want or any(fnmatch.fnmatch(cand, pt) for pt in patterns):
-                        fq = cand
-                        break
-                    if alt in want or any(fnmatch.fnmatch(alt, pt) for pt in patterns):
-                        fq = alt
-                        break
-                    if fq is None:
-                        fq = "~" + cand
+                        cands.append(cand)
+                    elif alt in want or any(fnmatch.fnmatch(alt, pt) for pt in patterns):
+                        cands.append(alt)
+                    else:
+                        cands.append("~" + cand)
+            real = [c for c in cands if not c.startswith("~")]
+            # a failed precondition has a span in the callee's contract too: the obligation belongs to the function
+            # whose query failed (the caller)
+            failing = [c for c in real if c in this_run and not this_run[c]["success"]]
+            fq = failing[0] if failing else (real[0] if real else (cands[0] if cands else None))
+            # clause-level attribution: a contract clause may carry `// [Cxx,Cyy]`; a failure of a clause tagged for other
+            # properties only is not a failure of this property
+            tags = set()
+            gen_lines = idx.src.splitlines()
+            for sp in d.get("spans", []):
+                if sp.get("file_name", "").endswith(".rs") and 0 < sp.get("line_start", 0) <= len(gen_lines):
+                    for ln in range(sp["line_start"], min(sp.get("line_end", sp["line_start"]), sp["line_start"] + 3) + 1):
+                        mt = re.search(r"//\s*\[(C[0-9]+(?:\s*,\s*C[0-9]+)*)\]", gen_lines[ln - 1]) if ln <= len(gen_lines) else None
+                        if mt and sp.get("label") is not None or (mt and sp.get("is_primary") and "postcondition" in msg):
+                            tags |= {x.strip() for x in mt.group(1).split(",")}
+            if tags and pid not in tags and fq and not fq.startswith("~"):
+                run_fail.append({"fn": "~other-property:" + fq, "message": msg, "class": cls, "rendered": d.get("rendered", ""), "tags": sorted(tags)})
+                other_prop_fail.setdefault(fq, 0)
+                other_prop_fail[fq] += 1
+                continue
             run_fail.append({"fn": fq, "message": msg, "class": cls, "rendered": d.get("rendered", "")})
+        for fq_o, n_o in other_prop_fail.items():
+            mine = [f for f in run_fail if f["fn"] == fq_o]
+            if not mine and fq_o in this_run and not this_run[fq_o]["success"]:
+                this_run[fq_o]["success"] = True
+                this_run[fq_o]["note"] = "failed only clauses tagged for other properties"
         runs.append({"seed": sd, "wall_s": round(wall, 2), "results": this_run, "failures": run_fail,
                      "verified": vr.get("verified"), "errors": vr.get("errors")})
     # isolated invocations (see @isolate in the sidecar): the function is verified with its listed callers hidden; in the
